@@ -91,10 +91,11 @@ CLAIMS = {
        "exactly in the forbidden / always-saved-under-time-range cases. The planning recursion as a whole is a bounded stand-in on the "
        "real Context (small DAGs x stored subsets x policies x modifiers).",
   note="Not proved: that exactly the reachable-not-stored plugins run and each type is delivered once from one origin (bounded stand-in); "
-       "_add_saver / _get_partial_loader_for and the processors' loader-vs-plugin wiring are not under contract. Context state is opaque; "
+       "_get_partial_loader_for and the processors' loader-vs-plugin wiring are not under contract. Context state is opaque; "
        "recursion is handled by induction (same contract). Also proved: Context._find_options (what 'fuzzy' means) and "
        "StorageFrontend._we_take / _support_superruns / find (only accepted data types, superruns only if provided, no write location "
-       "from a readonly frontend).",
+       "from a readonly frontend), Context._add_saver (every writable frontend is asked in storage order, a refusing one does not stop "
+       "the others) and Context.is_stored (several data types: all of them; one: some frontend has it).",
   technique="contract-based deductive verification (dominance obligations via ghost flags in symbolic execution of the real nested function) + bounded stand-in",
   design_ref="DESIGN.md section 6, C11"),
  "C05": dict(
@@ -154,8 +155,10 @@ CLAIMS = {
        "start/end from the first/last chunk and finalises the backend exactly once after the closed flag; Saver.save_from saves every "
        "chunk it gets from the rechunker exactly once under consecutive numbers, tracks every write future, and closes exactly once. "
        "Bit-identical rows, boundaries and metadata through the real compressors / file backend are a bounded stand-in.",
-  note="Backend hooks (_save_chunk, _save_chunk_metadata, _close) are abstract in the proofs; FileSaver's file layout, the codecs, "
-       "StorageBackend._read_and_format_chunk and the Rechunker are covered by bounded stand-ins only (labelled).",
+  note="Also proved: StorageBackend._read_and_format_chunk, _read_format_split_chunk, Rechunker.receive / flush / get_splits, "
+       "SaverSpy (single-thread saving) and strax.io.save_file / _save_file (the size reported is the number of bytes written; temporary "
+       "name first, rename afterwards). Backend hooks (_save_chunk, _save_chunk_metadata, _close) are abstract in the Saver proofs; "
+       "FileSaver's file layout and the codecs are covered by bounded stand-ins only (labelled).",
   technique="contract-based deductive verification (ghost records of the metadata handed to the backend, ghost sets of write futures) + bounded round-trip stand-in",
   design_ref="DESIGN.md section 6 (C03) and 10"),
  "C04": dict(
